@@ -47,11 +47,42 @@ def _job(case):
     docs, cids = i9.allowed_sets(c, init)
     res = {"case": label, "call": O.name(op), "state": state, "crash_points": len(base.snapshots),
            "distinct_crash_states": len(states), "violations": [], "classes": set()}
+    # 'dies at any point inside any API call' includes a call that an I/O error has hit: every image that FOLLOWS each fault
+    # site of the call (one-off and persistent EIO) is a crash image too
+    import errno as _errno
+    seen_keys = {common.tree_key(t) for _, _, t in states}
+    states = [(i, sop, t, None) for i, sop, t in states]
+    focc = {}
+    for fi, fop in enumerate(base.sites):
+        if not engine_f.is_fault_site(fop):
+            continue
+        fk = site_class(fop)
+        fname = "%s#%d" % (fk, focc.get(fk, 0))
+        focc[fk] = focc.get(fk, 0) + 1
+        for persistent in (False, True):
+            r = engine_f.run_call(root, init, fscen.P, op, c, fault=(fi, _errno.EIO, persistent), snapshots=True)
+            if not r.injected:
+                continue
+            res["faulted_runs"] = res.get("faulted_runs", 0) + 1
+            for j, files, dirs in r.snapshots:
+                if j <= fi:
+                    continue
+                t = engine_f.tree_of(files, dirs)
+                key = common.tree_key(t)
+                if key in seen_keys:
+                    continue
+                seen_keys.add(key)
+                sj = r.sites[j] if j < len(r.sites) else ("end",)
+                states.append((j, sj, t, "after %s EIO at %s: %s" % (
+                    "a persistent" if persistent else "a one-off", fname, site_class(sj) if sj[0] != "end" else "end")))
+    res["distinct_crash_states"] = len(states)
     occ = {}
-    for i, sop, tree in states:
+    for i, sop, tree, tag in states:
         k = site_class(sop) if sop[0] != "end" else "end"
         name = "%s#%d" % (k, occ.get(k, 0))
         occ[k] = occ.get(k, 0) + 1
+        if tag is not None:
+            name = tag
         viol = []
         # I9 on the crash image
         for where, what in i9.check_tree(tree, fscen.LAYOUT.algo, docs, cids):
